@@ -103,6 +103,25 @@ Theorem pool_admission_needed :
 Proof. exact pool_admission_needed_proved. Qed.
 Print Assumptions pool_admission_needed.
 
+(* a snapshot image of the user state machine is never taken (PrepareSnapshot, or the plain
+   state machine's SaveSnapshot) while the state machine holds an update that the applied-index
+   bookkeeping (s.index / s.onDiskIndex, the snapshot's label) does not yet reflect: needs the
+   generated fact apply_bookkeeping_in_update_section (setApplied / setOnDiskIndex in the
+   critical section of StateMachine.mu in which Update was called) *)
+Theorem snapshot_label_consistent :
+  forall k nsnap n sched, 2 <= n -> snap_bad (run (gen_cfg k nsnap) (init n) sched) = false.
+Proof. exact snapshot_label_consistent_proved. Qed.
+Print Assumptions snapshot_label_consistent.
+
+(* with the bookkeeping done after the mutex was released a save job labels a post-update
+   image with the pre-update index (the entries are then delivered twice after a restart) *)
+Theorem bookkeeping_section_needed :
+  snap_bad (run (cfg_book_late Conc 1) (init 4) late_book_schedule) = true
+  /\ calls (run (cfg_book_late Conc 1) (init 4) late_book_schedule) = [(2, MPrepare)]
+  /\ snap_bad (run (gen_cfg Conc 1) (init 4) late_book_schedule) = false.
+Proof. exact bookkeeping_section_needed_proved. Qed.
+Print Assumptions bookkeeping_section_needed.
+
 (* ---- the sequential apply path ---- *)
 (* the indexes handed to Update are strictly increasing, for every task queue *)
 Theorem update_indexes_strictly_increasing :
